@@ -18,7 +18,11 @@ Pipeline (spec/C05_Search.tla decides every verdict):
      orders; (b) the "relaxed" heuristic: heuristic_value lazily runs a nested AStarSearch /
      BreadthFirstSearch on a relaxed copy (costs min(c,1)) of the graph given as a plain MDP - the
      nested conversion happens while the outer search is running; every nested result is judged
-     like a stand-alone run on the relaxed graph;
+     like a stand-alone run on the relaxed graph; (c) planner re-use: the SAME planner object plans
+     graph A and then graph `then` over the same label set (spec action PlanNext: the second call
+     must behave like a fresh search); (d) the "many revisions" family (30-40 states, 6 actions,
+     costs 0..40, zero heuristic): too big for the machines, judged by the spec's clauses against
+     its relaxation oracle only;
   4. TLC, mode "judge": every distinct real outcome is one Return event; the clauses of the
      statement (Fails) are evaluated by the spec -> VIOLATION per failing clause;
   5. TLC, mode "trace": for a third (quick) / an eighth (thorough) of the runs the visit events
@@ -265,7 +269,7 @@ def make_labels(kind, n, prefix, rng):
         labs = [pool[i % len(pool)](i) for i in range(n)]
     elif kind == "falsy":                # legal hashable labels that are falsy in Python (None, 0, '', (), ...)
         pool = [None, 0, "", (), frozenset(), b"", frozendict(), 0.5, "x", -1]
-        labs = pool[:n]
+        labs = (pool + [("f", i) for i in range(n)])[:n]
     else:
         raise ValueError(kind)
     rng.shuffle(labs)                    # label order is unrelated to the abstract order
@@ -567,7 +571,7 @@ def nested_heuristic(g, sl, build_seed, sink):
 class Prepared:
     """One real execution, split so that several conversions can precede the searches."""
 
-    def __init__(self, g, cfg, h2, rep, seed, build_seed, preconvert=False):
+    def __init__(self, g, cfg, h2, rep, seed, build_seed, preconvert=False, shared=None):
         from msdm.algorithms.search import AStarSearch, BreadthFirstSearch
         from msdm.core.mdp.deterministic_shortest_path import DeterministicShortestPathProblem
         self.cfg = cfg
@@ -581,6 +585,8 @@ class Prepared:
         self.name = "AStarSearch" if cfg["alg"] == "astar" else "BreadthFirstSearch"
         self.target = mdp
         self.planner = None
+        self.shared = shared             # one planner object used for several problems in a row
+        self.hvfn = lambda s: 0
 
         def make():
             randomized = cfg["rnd"] == 1 or (cfg["alg"] == "astar" and cfg["tie"] == "random")
@@ -589,14 +595,24 @@ class Prepared:
                 if randomized:
                     kw["seed"] = seed
                 if cfg["hk"] == "relaxed":
-                    kw["heuristic_value"] = nested_heuristic(g, sl, build_seed, self.nested)
-                elif not (cfg["hk"] == "zero" and build_seed % 2 == 0):   # every other zero run: the default heuristic
+                    kw["heuristic_value"] = self.hvfn = nested_heuristic(g, sl, build_seed, self.nested)
+                elif not (cfg["hk"] == "zero" and (build_seed % 2 == 0 or shared is not None)):   # every other zero run: the default heuristic
                     if g.get("cbase"):   # exact integers (h2 is even for the zero and exact heuristics)
                         hv = {l: (-math.inf if h2[i] >= INF else -real_cost(g, h2[i] // 2)) for i, l in enumerate(sl)}
                     else:
                         hv = {l: (-math.inf if h2[i] >= INF else -h2[i] / 2) for i, l in enumerate(sl)}
-                    kw["heuristic_value"] = lambda s: hv[s]
-                self.planner = AStarSearch(**kw)
+                    kw["heuristic_value"] = self.hvfn = lambda s: hv[s]
+                if shared is not None:   # the heuristic of the shared planner looks up the current problem's table
+                    kw["heuristic_value"] = lambda s: shared["fn"](s)
+                    if "planner" not in shared:
+                        shared["planner"] = AStarSearch(**kw)
+                    self.planner = shared["planner"]
+                else:
+                    self.planner = AStarSearch(**kw)
+            elif shared is not None:
+                if "planner" not in shared:
+                    shared["planner"] = BreadthFirstSearch(seed=seed if randomized else None, randomize_action_order=bool(cfg["rnd"]))
+                self.planner = shared["planner"]
             else:
                 self.planner = BreadthFirstSearch(seed=seed if randomized else None, randomize_action_order=bool(cfg["rnd"]))
             if preconvert:     # the conversion is done now, the search later (other conversions in between)
@@ -606,6 +622,8 @@ class Prepared:
     def execute(self):
         if self.out["kind"] == "error":
             return self.out
+        if self.shared is not None:
+            self.shared["fn"] = self.hvfn
         ok, res = _guarded(lambda: self.planner.plan_on(self.target), self.name, self.out)
         if ok:
             project(res, self.cfg["alg"], self.sidx, self.aidx, self.out, self.g)
@@ -641,11 +659,14 @@ def graph_for_tlc(g):
     d.setdefault("cbase", 0)
     d.setdefault("cbig", "1")
     d["cbig"] = str(d["cbig"])           # far beyond 32 bits: a name for TLC, the number for Python
+    d["then"] = g.get("then", 0)         # the graph the same planner object plans next (index in the batch)
     d["cfgs"] = g["cfgs"]
     return d
 
 
 def mc(ctx, graphs, tag="mc"):
+    if not graphs:
+        return {}, {}
     res = run_tlc(ctx.workdir / tag, MODULE, CFG_MC,
                   files={"batch.json": {"graphs": [graph_for_tlc(g) for g in graphs], "runs": []}},
                   env={"BATCH_FILE": "batch.json", "MODE": "mc"}, coverage=(ctx.tier == "thorough"))
@@ -659,7 +680,7 @@ def mc(ctx, graphs, tag="mc"):
         if r["kind"] == "oracle":
             orc[r["iid"]] = r
         elif r["kind"] == "outcome":
-            outcomes.setdefault((r["iid"], r["cid"]), []).append(r)
+            outcomes.setdefault((r["iid"], r["cid"], r["prev"]), []).append(r)
     for i, g in enumerate(graphs, start=1):
         o = orc.get(i)
         if o is None:
@@ -674,8 +695,10 @@ def mc(ctx, graphs, tag="mc"):
             raise TLCFailure(f"custom heuristic of graph {i} not read back identically")
         ctx.count("oracle_crosschecks")
         for c in range(1, len(g["cfgs"]) + 1):
-            if not outcomes.get((i, c)):
+            if not outcomes.get((i, c, 0)):
                 raise TLCFailure(f"no outcome emitted for graph {i} configuration {c}")
+            if g.get("then") and not outcomes.get((g["then"], c, i)):
+                raise TLCFailure(f"no outcome emitted for the second call of the planner after graph {i} configuration {c}")
     return orc, outcomes
 
 
@@ -788,16 +811,95 @@ def plan_runs(rng, graphs, tier):
                            legs[1][3], legs[1][4])
             for order in ("ab", "ba"):
                 plan.append(("pair", legs[0], legs[1], order))
+    # planner re-use: the same planner object plans graph A, then graph `then` over the same label set
+    for i, g in enumerate(graphs, start=1):
+        j = g.get("then", 0)
+        if not j:
+            continue
+        for c, cfg in enumerate(g["cfgs"], start=1):
+            randomized = cfg["rnd"] == 1 or (cfg["alg"] == "astar" and cfg["tie"] == "random")
+            sd = rng.randrange(2 ** 31) if randomized else None
+            ra = rand_rep(rng)
+            rb = dict(rand_rep(rng), labels=ra["labels"], alabels=ra["alabels"])
+            plan.append(("reuse", (i, c, ra, sd, rng.randrange(2 ** 30)), (j, c, rb, sd, rng.randrange(2 ** 30))))
     return plan
 
 
-def judge_cases(ctx, graphs, plan, *, tamper=None, quiet_counts=False, trace_every=0):
+def link_reuse(rng, graphs, share=0.2):
+    """Marks about `share` of the batch: g["then"] = index (in this batch) of the problem the same planner
+    object plans next.  Both problems have the same configuration menu."""
+    for g in graphs:
+        g["then"] = 0
+    idx = list(range(1, len(graphs) + 1))
+    for i in idx:
+        if rng.random() < share:
+            cand = [j for j in idx if j != i and graphs[j - 1]["cfgs"] == graphs[i - 1]["cfgs"]]
+            if cand:
+                graphs[i - 1]["then"] = rng.choice(cand)
+
+
+# "many revisions of queued states": 30-40 states, 6 actions everywhere, costs 0..40, zero heuristic, so that
+# the queue is long and states are re-reached at lower cost while queued.  Too big for the machines: these
+# runs are decided by the spec's clauses against its relaxation oracle (mode "judge") only.
+BIG_CFGS = ([dict(alg="astar", tie=tie, rnd=rnd, hk="zero") for tie in ("lifo", "fifo", "random") for rnd in (0, 1)]
+            + [dict(alg="bfs", tie="fifo", rnd=1, hk="zero")])
+
+
+def revision_graph(rng):
+    n = rng.randint(30, 40)
+    K = 6
+    g = dict(N=n, K=K, cbase=0, cbig="1", hc=[0] * n, cfgs=[], then=0)
+    g["avail"] = [[1] * K for _ in range(n)]
+    g["nxt"] = [[rng.randrange(n) + 1 for _ in range(K)] for _ in range(n)]
+    g["cost"] = [[0 if rng.random() < 0.05 else rng.randint(1, 40) for _ in range(K)] for _ in range(n)]
+    g["goal"] = [0] * n
+    g["start"] = 1
+    for _ in range(rng.choice([1, 1, 2])):
+        g["goal"][rng.randrange(1, n)] = 1
+    return g
+
+
+def plan_big(rng, n_graphs, runs_per_cfg):
+    jobs = []
+    for _ in range(n_graphs):
+        g = revision_graph(rng)
+        for cfg in BIG_CFGS:
+            for _ in range(runs_per_cfg if (cfg["rnd"] or cfg["tie"] == "random") else 1):
+                randomized = cfg["rnd"] == 1 or (cfg["alg"] == "astar" and cfg["tie"] == "random")
+                jobs.append((g, cfg, rand_rep(rng), rng.randrange(2 ** 31) if randomized else None, rng.randrange(2 ** 30)))
+    return jobs
+
+
+def judge_cases(ctx, graphs, plan, *, tamper=None, quiet_counts=False, trace_every=0, big=()):
     orc, outcomes = mc(ctx, graphs)
     runs = []
     nested = []          # nested searches run inside heuristic_value: judged like stand-alone runs
     for job in plan:
         if NONTERM["n"] >= NONTERM_STOP:
             ctx.skip("not run: non-termination already reported %d times" % NONTERM_STOP)
+            continue
+        if job[0] == "reuse":
+            _, la, lb = job
+            shared = {}
+            first = None
+            for pos, (i, c, rep, sd, bs) in enumerate((la, lb)):
+                g = graphs[i - 1]
+                cfg = g["cfgs"][c - 1]
+                h2 = list(orc[i]["hz"][cfg["hk"]])
+                p = Prepared(g, cfg, h2, rep, sd, bs, shared=shared)
+                real = p.execute()
+                ctx.evaluations += 1
+                run = {"gid": i, "cid": c, "alg": cfg["alg"], "cfg": cfg, "rep": rep, "seed": sd, "build_seed": bs,
+                       "h2": h2, "res": real}
+                if pos == 1:
+                    ctx.count("runs_on_a_reused_planner_object")
+                    run["prev"] = la[0]
+                    run["scenario"] = {"kind": "reuse", "first": first}
+                else:
+                    first = {"graph": gcore(g), "cfg": cfg, "rep": rep, "seed": sd, "build_seed": bs}
+                runs.append(run)
+                for nr in p.nested:
+                    nested.append(dict(nr, outer=len(runs) - 1))
             continue
         if job[0] == "pair":
             _, la, lb, order = job
@@ -866,7 +968,23 @@ def judge_cases(ctx, graphs, plan, *, tamper=None, quiet_counts=False, trace_eve
     ctx.evaluations += len(nruns)
     if nruns and not quiet_counts:
         ctx.count("nested_searches_inside_heuristic_value", len(nruns))
-    all_verdicts = judge(ctx, jgraphs, runs + nruns)
+    # the "many revisions" family: run here, judged by the spec's clauses only (too big for the machines)
+    bruns = []
+    for (bg, cfg, brep, sd, bs) in big:
+        if NONTERM["n"] >= NONTERM_STOP:
+            ctx.skip("not run: non-termination already reported %d times" % NONTERM_STOP)
+            continue
+        key = digest(graph_for_tlc(bg))
+        if key not in where:
+            jgraphs.append(bg)
+            where[key] = len(jgraphs)
+        real = run_real(bg, cfg, [0] * bg["N"], brep, sd, bs)
+        ctx.evaluations += 1
+        bruns.append({"gid": where[key], "alg": cfg["alg"], "res": real, "cfg": cfg, "rep": brep, "seed": sd,
+                      "build_seed": bs, "graph": bg})
+    if bruns and not quiet_counts:
+        ctx.count("runs_on_the_many_revisions_family(30-40 states)", len(bruns))
+    all_verdicts = judge(ctx, jgraphs, runs + nruns + bruns)
     verdicts = all_verdicts[:len(runs)]
     if trace_every:
         validate_traces(ctx, graphs, [r for k, r in enumerate(runs) if k % trace_every == 0])
@@ -874,7 +992,7 @@ def judge_cases(ctx, graphs, plan, *, tamper=None, quiet_counts=False, trace_eve
     for r, (fails, shape) in zip(runs, verdicts):
         i, c = r["gid"], r["cid"]
         g, cfg, real = graphs[i - 1], r["cfg"], r["res"]
-        exp = outcomes[(i, c)]
+        exp = outcomes[(i, c, r.get("prev", 0))]
         predicted_error = any(o["phase"] == "error" for o in exp)
         explained = False
         if real["kind"] == "error":
@@ -951,6 +1069,23 @@ def judge_cases(ctx, graphs, plan, *, tamper=None, quiet_counts=False, trace_eve
                           f"value={real.get('raw_value', real['value'])} {real.get('note', '')}", case)
         if not fails:
             ctx.validated += 1
+    for br, (fails, shape) in zip(bruns, all_verdicts[len(runs) + len(nruns):]):
+        real, cfg = br["res"], br["cfg"]
+        planner = "AStarSearch" if cfg["alg"] == "astar" else "BreadthFirstSearch"
+        case = {"family": "big", "graph": gcore(br["graph"]), "cfg": cfg, "rep": br["rep"], "seed": br["seed"],
+                "build_seed": br["build_seed"], "real": {k: v for k, v in real.items() if k != "visits"}}
+        for clause in fails:
+            if clause == "returns":
+                site, cl = real.get("site", planner + ".plan_on"), "raises-" + real.get("exc", "error")
+            else:
+                site, cl = planner, clause
+            ctx.violation(f"C05:{site}:{cl}:many-revisions-30-40-states",
+                          f"{planner} ({cfg['tie']}, rnd={cfg['rnd']}, h=zero) on a {br['graph']['N']}-state graph, clause '{clause}': "
+                          f"kind={real['kind']} path={real['path']} value={real.get('raw_value', real['value'])} {real.get('note', '')}", case)
+        if not fails:
+            ctx.validated += 1
+            if not quiet_counts:
+                ctx.nontrivial(digest([case["graph"], cfg]))
     n_err = sum(1 for olist in outcomes.values() for o in olist if o["phase"] == "error")
     if n_err:
         raise TLCFailure(f"the reference machine reached an assertion failure in {n_err} outcomes")
@@ -1007,8 +1142,10 @@ def run(ctx):
     graphs = make_graphs(rng, n, sizes)
     for k in range(0, len(graphs), chunk):
         part = graphs[k:k + chunk]
+        link_reuse(rng, part)
         plan = plan_runs(rng, part, ctx.tier)
-        judge_cases(ctx, part, plan, trace_every=3 if ctx.tier == "quick" else 8)
+        bigjobs = plan_big(rng, 200 if ctx.tier == "quick" else 500, 8)
+        judge_cases(ctx, part, plan, trace_every=3 if ctx.tier == "quick" else 8, big=bigjobs)
     zero_entry_probe(ctx, graphs, rng)
 
 
@@ -1040,7 +1177,14 @@ def replay(ctx, case):
     g["cfgs"] = [case["cfg"]]
     leg = (1, 1, case["rep"], case["seed"], case["build_seed"])
     sc = case.get("scenario")
-    if sc and sc["kind"] == "pair":
+    if case.get("family") == "big":
+        bg = dict(case["graph"], cfgs=[], then=0)
+        judge_cases(ctx, [], [], big=[(bg, case["cfg"], case["rep"], case["seed"], case["build_seed"])])
+    elif sc and sc["kind"] == "reuse":
+        f = sc["first"]
+        ga = dict(f["graph"], cfgs=[f["cfg"]], then=2)
+        judge_cases(ctx, [ga, g], [("reuse", (1, 1, f["rep"], f["seed"], f["build_seed"]), (2,) + leg[1:])], trace_every=1)
+    elif sc and sc["kind"] == "pair":
         pt = sc["partner"]
         g2 = dict(pt["graph"])
         g2["cfgs"] = [pt["cfg"]]
